@@ -180,6 +180,11 @@ func (t *tr) rangeHead(rs *ast.RangeStmt) *loopHead {
 		kn = "i"
 		h.idxName = ""
 	}
+	if vn == "" {
+		// for i := range X  is  for i := 0; i < len(X); i++ : only the LENGTH of X must be
+		// invariant under the body (the body may write X[i])
+		h.bound = []ast.Expr{&ast.CallExpr{Fun: ast.NewIdent("len"), Args: []ast.Expr{rs.X}}}
+	}
 	h.domain, h.bty = "seq 0 (length "+par(lst)+")", "nat"
 	h.bind = func() {
 		h.binder = t.freshFor(kn, kn)
